@@ -23,7 +23,7 @@ from engine.pyvc.values import *
 from engine.pyvc import models
 from engine.pyvc.interp import SFile
 from engine.pyvc.loops import LoopSpec
-from engine.pyvc.harness import toolkit, raw, where, new_engine, run_paths, path_obligations, register_fn, note_engine, qualname
+from engine.pyvc.harness import toolkit, raw, where, new_engine, run_paths, path_obligations, register_fn, note_engine, qualname, exc_note, sect
 from contracts.py import msgs
 from contracts.py.common import view_of, install_validate_summaries, attr
 from spec import valid_msg as V
@@ -91,12 +91,12 @@ def mk_dump(E, pos):
 
 def build(run, prop=ID):
     E = new_engine()
-    build_dump_and_hdr(run, prop, E)
-    build_seek(run, prop, E)
-    build_parse_one(run, prop, E)
-    build_parse_msg(run, prop, E)
-    build_parse_all(run, prop, E)
-    build_append(run, prop, E)
+    sect(run, build_dump_and_hdr, run, prop, E)
+    sect(run, build_seek, run, prop, E)
+    sect(run, build_parse_one, run, prop, E)
+    sect(run, build_parse_msg, run, prop, E)
+    sect(run, build_parse_all, run, prop, E)
+    sect(run, build_append, run, prop, E)
     note_engine(run, E)
     run.assume("file object model: read/seek/write semantics of a binary file opened 'a+b' as stated in the module docstring")
     run.assume("the capture was produced by append_msg/append_all (well-formed CAP) and possibly cut at any byte offset")
@@ -153,7 +153,7 @@ def build_dump_and_hdr(run, prop, E):
     for p, ctx, out in run_paths(E, setup2, lambda E, ctx: E.call(g, [ctx["self"], ctx["hdr"]])):
         tag = {"what": "parse_hdr"}
         if out[0] == "raise":
-            run.add(Obligation(prop, qualname(g), "never_raises", p.pc, z3.BoolVal(False), kind="noexc", case=out[1].cls.__name__, where=where(g), tag=tag))
+            run.add(Obligation(prop, qualname(g), "never_raises", p.pc, z3.BoolVal(False), kind="noexc", note=exc_note(out[1]), case=out[1].cls.__name__, where=where(g), tag=tag))
             continue
         r = out[1]
         t0 = z3.Select(h, 0)
@@ -216,7 +216,7 @@ def build_seek(run, prop, E):
         if out[0] == "cut":
             continue
         if out[0] == "raise":
-            run.add(Obligation(prop, qualname(f), "never_raises", p.pc, z3.BoolVal(False), kind="noexc", case=out[1].cls.__name__, where=where(f), tag=tag))
+            run.add(Obligation(prop, qualname(f), "never_raises", p.pc, z3.BoolVal(False), kind="noexc", note=exc_note(out[1]), case=out[1].cls.__name__, where=where(f), tag=tag))
             continue
         pos = Z(ctx["file"].pos)
         if out[1] is True:
@@ -271,7 +271,7 @@ def build_parse_one(run, prop, E):
     for p, ctx, out in run_paths(E, setup, lambda E, ctx: E.call(f, [ctx["self"]])):
         tag = {"what": "parse_one"}
         if out[0] == "raise":
-            run.add(Obligation(prop, qualname(f), "never_raises", p.pc, z3.BoolVal(False), kind="noexc", case=out[1].cls.__name__, where=where(f), tag=tag))
+            run.add(Obligation(prop, qualname(f), "never_raises", p.pc, z3.BoolVal(False), kind="noexc", note=exc_note(out[1]), case=out[1].cls.__name__, where=where(f), tag=tag))
             continue
         r = out[1]
         pos = Z(ctx["file"].pos)
@@ -351,7 +351,7 @@ def build_parse_msg(run, prop, E):
         tag = {"what": "parse_msg"}
         run.add(*path_obligations(run, prop, f, p, "", tag=tag))
         if out[0] == "raise":
-            run.add(Obligation(prop, qualname(f), "never_raises", p.pc, z3.BoolVal(False), kind="noexc", case=out[1].cls.__name__, where=where(f), tag=tag))
+            run.add(Obligation(prop, qualname(f), "never_raises", p.pc, z3.BoolVal(False), kind="noexc", note=exc_note(out[1]), case=out[1].cls.__name__, where=where(f), tag=tag))
             continue
         r = out[1]
         if r is None:
@@ -421,7 +421,7 @@ def build_parse_all(run, prop, E):
                 if out[0] == "cut":
                     continue
                 if out[0] == "raise":
-                    run.add(Obligation(prop, qualname(f), "never_raises", p.pc, z3.BoolVal(False), kind="noexc", case=cs + "," + out[1].cls.__name__, where=where(f), tag=tag))
+                    run.add(Obligation(prop, qualname(f), "never_raises", p.pc, z3.BoolVal(False), kind="noexc", note=exc_note(out[1]), case=cs + "," + out[1].cls.__name__, where=where(f), tag=tag))
                     continue
                 r = out[1]
                 if r is False:
@@ -539,7 +539,7 @@ def build_append(run, prop, E):
         if out[0] == "cut":
             continue
         if out[0] == "raise":
-            run.add(Obligation(prop, qualname(g), "never_raises_for_valid_messages", p.pc, z3.BoolVal(False), kind="noexc", case=out[1].cls.__name__, where=where(g), tag=tag))
+            run.add(Obligation(prop, qualname(g), "never_raises_for_valid_messages", p.pc, z3.BoolVal(False), kind="noexc", note=exc_note(out[1]), case=out[1].cls.__name__, where=where(g), tag=tag))
             continue
         bb = p.ghost["BB"]
         m = z3.Int("m")
@@ -595,32 +595,49 @@ def replay(payload):
     kcut = max([k for k in range(len(mb)) if mb[k] <= cut_model] or [0])
     kcut = min(kcut, n)
     extra = min(cut_model - mb[kcut] if kcut < len(mb) else 0, (bounds[kcut + 1] - bounds[kcut] - 1) if kcut < n else 0)
-    cut = bounds[kcut] + max(0, extra)
-    data = full[:cut]
-    ncomplete = max(k for k in range(n + 1) if bounds[k] <= cut)
-    rd = dd.DATADumpFile(io.BytesIO(data))
+    cut0 = bounds[kcut] + max(0, extra)
     what = f.get("what")
 
     def same(a, b):
         return type(a) is type(b) and a.gen_msg() == b.gen_msg()
-    try:
-        if what in ("seek", "parse_msg", "parse_one"):
-            idx = max(0, min(n + 1, f.get("idx", f.get("K", 0))))
-            r = rd.parse_msg(idx)
-            exp = msgs_[idx] if idx < ncomplete else None
-            ok = (r is None and exp is None) or (r is not None and exp is not None and same(r, exp))
-            return {"confirmed": not ok, "observed": str(r), "expected": "record %d" % idx if exp is not None else None, "cut": cut}
-        if what == "parse_all":
-            skip = None if f.get("skip_none") else max(0, min(n + 1, f.get("skip", 0)))
-            count = None if f.get("count_none") else max(1, min(n + 1, f.get("count", 1)))
-            r = rd.parse_all(skip=skip, count=count)
-            s = skip or 0
-            hdr_ok = all(bounds[k] + 3 <= cut for k in range(min(s, n))) and s <= n
-            if not hdr_ok:
-                return {"confirmed": r is not False, "observed": str(r)[:80], "expected": False}
-            exp = msgs_[s:min(ncomplete, s + (count if count is not None else n))]
-            ok = r is not False and len(r) == len(exp) and all(same(a, b) for a, b in zip(r, exp))
-            return {"confirmed": not ok, "observed": "%s messages" % (len(r) if r is not False else r), "expected": "%d messages" % len(exp), "cut": cut}
-    except Exception as e:
-        return {"confirmed": True, "observed": "raises %s: %s" % (type(e).__name__, e), "expected": "no exception"}
-    return {"confirmed": False, "error": "no native replay for %r" % what}
+
+    def run_at(cut):
+        data = full[:cut]
+        ncomplete = max(k for k in range(n + 1) if bounds[k] <= cut)
+        rd = dd.DATADumpFile(io.BytesIO(data))
+        try:
+            if what in ("seek", "parse_msg", "parse_one"):
+                for idx in sorted({max(0, min(n + 1, f.get("idx", f.get("K", 0)))), ncomplete, max(0, ncomplete - 1)}):
+                    rd = dd.DATADumpFile(io.BytesIO(data))
+                    r = rd.parse_msg(idx)
+                    exp = msgs_[idx] if idx < ncomplete else None
+                    ok = (r is None and exp is None) or (r is not None and exp is not None and same(r, exp))
+                    if not ok:
+                        return {"confirmed": True, "observed": "parse_msg(%d) = %s" % (idx, r), "expected": "record %d" % idx if exp is not None else None, "cut": cut}
+                return None
+            if what == "parse_all":
+                skip = None if f.get("skip_none") else max(0, min(n + 1, f.get("skip", 0)))
+                count = None if f.get("count_none") else max(1, min(n + 1, f.get("count", 1)))
+                r = rd.parse_all(skip=skip, count=count)
+                s = skip or 0
+                hdr_ok = all(bounds[k] + 3 <= cut for k in range(min(s, n))) and s <= n
+                if not hdr_ok:
+                    return None if r is False else {"confirmed": True, "observed": str(r)[:80], "expected": False, "cut": cut}
+                exp = msgs_[s:min(ncomplete, s + (count if count is not None else n))]
+                ok = r is not False and len(r) == len(exp) and all(same(a, b) for a, b in zip(r, exp))
+                return None if ok else {"confirmed": True, "observed": "%s messages" % (len(r) if r is not False else r), "expected": "%d messages" % len(exp), "cut": cut}
+        except Exception as e:
+            return {"confirmed": True, "observed": "raises %s: %s" % (type(e).__name__, e), "expected": "no exception", "cut": cut}
+        return {"confirmed": False, "error": "no native replay for %r" % what}
+    # the verifier's cut first, then the same obligation's other truncation classes (inside a record header, inside a body, on a boundary)
+    cuts = [cut0] + [b + d_ for b in bounds for d_ in (0, 1, 2, 3, 4) if b + d_ <= len(full)] + [b - 1 for b in bounds[1:]]
+    seen = set()
+    for cut in cuts:
+        if cut in seen:
+            continue
+        seen.add(cut)
+        r = run_at(cut)
+        if r is not None:
+            r["cuts_tried"] = len(seen)
+            return r
+    return {"confirmed": False, "observed": "as the definition prescribes at %d truncation offsets" % len(seen), "cut": cut0}
